@@ -100,7 +100,7 @@ def run_case(mode, grid, li, quad, ei, pair, drv, variant):
                 return fail("roundtrip-inflow", dd)
     else:
         scale = max(dsm_impl.scale_of(back["manual"], grid), dsm_impl.scale_of(back["lapack"], grid))
-        if not scale < 1e12:
+        if not scale < 1e12 * (2.0 ** 30 if "@huge" in drv else 1.0):
             return "skipped-ill-conditioned", None
         for s in ("manual", "lapack"):
             dd = cmp_tables(d, back[s]["driver_after"], 0.0, f"prescribed stock vs stock held by stock-driven/{s} after compute")
@@ -120,8 +120,8 @@ def run_case(mode, grid, li, quad, ei, pair, drv, variant):
     return "inverse-and-agree", None
 
 
-DRV_A = ["pos", "pos2"]
-DRV_B = ["inc", "dec", "hump", "mid0", "tail0"]
+DRV_A = ["pos", "pos2", "pos@tiny", "pos2@huge"]
+DRV_B = ["inc", "dec", "hump", "mid0", "tail0", "hump@tiny", "inc@huge"]
 
 
 def run_unit(u):
